@@ -316,6 +316,20 @@ def rule_env(ctx):
     ctx.floor(R, "parameter-seeds", len(seeds), 1)
     for s in seeds:
         le = let_env(fn["body"], s)
+        # what is seeded: the declared parameters, i.e. the loop runs over the definition's parameter list itself (a
+        # later SSA version of a re-assigned parameter is an ordinary local: its degree comes from what is assigned)
+        loops = [c for c in conditions_to(fn["body"], s) if c[0] == "loop" and c[1] == "for"]
+        okl = False
+        det = "not in a loop"
+        if loops:
+            it = strip(loops[-1][3])
+            for _ in range(3):
+                if it["k"] == "Path" and it["path"] in le:
+                    it = strip(le[it["path"]])
+            t_it = render(it).replace(" ", "").replace("&", "")
+            det = "seeds are given to each element of `%s`" % t_it[:80]
+            okl = t_it in ("self.parameters().iter()", "self.parameters()", "self.parameters.iter()", "self.parameters", "self.parameters().iter().cloned()", "self.parameters().clone().iter()") and render(strip(s["args"][0])).replace("&", "").strip() == render(loops[-1][2]).replace("&", "").strip()
+        ctx.check(R, "Cfg::propagate_degrees/seeds-the-declared-parameters-only", okl, det, site(CFG, s))
         base = [(c[1], bool(c[2])) for c in conditions_to(fn["body"], s) if c[0] == "if"]
         conds = [fact_str(c) for c in conditions_to(fn["body"], s)]
         # the range handed over, through lets; an `if` expression contributes its condition to each branch
